@@ -1821,6 +1821,50 @@ func vfEmit(out *zzverif.Out, cf vfConfig, ops []vfOp) {
 	out.Case("kv-l "+line, l)
 }
 
+// TestVerifC06Probe determines which of the three repairs the tree under test carries, by running the
+// real code on the three witness histories (Tie 1: the model variant is a fact regenerated from the
+// tree on every run).  Writes variant.txt: bit 1 = F14 repaired, 2 = F15b repaired, 4 = F23 repaired.
+func TestVerifC06Probe(t *testing.T) {
+	run := func(line string) (r *vfRun, panicked bool) {
+		cf, ops, err := vfParseHistory(line)
+		if err != nil {
+			t.Fatal(err)
+		}
+		r = vfNewRun(cf, nil, "", true)
+		defer func() {
+			if recover() != nil {
+				panicked = true
+			}
+		}()
+		for i, op := range ops {
+			r.step(i, op)
+		}
+		return r, false
+	}
+	bits := 0
+	// F14: after the defrag the cell labelled position 0 must hold the row stored for it (id 3)
+	r, _ := run("kv-x 0 inf 1 5 5 1 1 1 0 0 8192 4 F 5 0 0 1 0 1 2 0 2 3 0 3 4 0 4 5 R 0 0 2 R 0 2 2147483647 F 3 0 2 6 0 3 7 0 4 8")
+	for i, c := range r.cache.cells {
+		if len(c.sequences) > 0 && c.pos == 0 {
+			if id, _, _ := r.rowK(0, i); id == 3 {
+				bits |= 1
+			}
+		}
+	}
+	// F15b: the fork of a slid sequence must not be approved
+	r, _ = run("kv-x 0 2 2 16 4 1 1 1 0 0 8192 11 F 1 0 0 1 F 1 0 1 2 F 1 0 2 3 F 1 0 3 4 F 1 0 4 5 F 1 0 5 6 F 1 0 6 7 F 1 0 7 8 F 1 0 8 9 F 1 0 9 10 C 0 1 8")
+	if !r.cache.CanResume(1, 8) {
+		bits |= 2
+	}
+	// F23: a first batch larger than the cache must be an error, not a panic
+	if _, panicked := run("kv-x 0 inf 1 1 3 1 1 1 1 0 10 1 F 2 0 0 1 0 1 2"); !panicked {
+		bits |= 4
+	}
+	if err := os.WriteFile(zzverif.OutDir()+"/variant.txt", []byte(strconv.Itoa(bits)+"\n"), 0o644); err != nil {
+		t.Fatal(err)
+	}
+}
+
 func TestVerifC06(t *testing.T) {
 	out := zzverif.NewOut()
 	defer out.Close()
